@@ -51,6 +51,9 @@ pub enum Op {
 	/// `used.clone_from(&obj)` into an object that already holds other entries.
 	CloneFromIntoUsed,
 	IntoIterRebuild,
+	/// `Object::canonicalize()` (values of the histories are already canonical numbers, so this is the
+	/// RFC 8785 member sort: UTF-16 key order, ties by value, index rebuilt).
+	Canonicalize,
 }
 
 impl Model {
@@ -367,6 +370,10 @@ pub fn apply(op: &Op, obj: &mut Object, m: &mut Model, fresh: &mut Fresh) -> Res
 			let c = obj.clone();
 			check_state(obj, m).map_err(|e| format!("original after clone: {}", e))?;
 			*obj = c;
+		}
+		Op::Canonicalize => {
+			m.entries.sort_by(|a, b| a.0.encode_utf16().cmp(b.0.encode_utf16()).then_with(|| a.1.cmp(&b.1)));
+			obj.canonicalize();
 		}
 		Op::CloneFromIntoFresh => {
 			let mut t = Object::new();
